@@ -134,6 +134,31 @@ func newWorker() (*worker, error) {
 
 func (k *worker) close() { k.w.Close() }
 
+// ask sends a request followed by a keep-alive and waits for the keep-alive's reply: the server handles a
+// connection's transactions one after the other and the world's pump delivers in order, so once the keep-alive is
+// answered the request's reply has arrived - or there is none (replied = false).  Bounded; never an expectation.
+// When the server closed the connection instead, a new client is logged in for the following scripts.
+func (k *worker) ask(typ int, fields ...sim.F) (rep sim.Tx, replied bool, closed bool) {
+	id := k.c.Send(typ, fields...)
+	kid := k.c.Send(sim.TKeepAlive)
+	if _, err := k.c.WaitReply(kid, 30*time.Second); err != nil {
+		if r, err2 := k.c.WaitReply(id, 0); err2 == nil {
+			rep, replied = r, true
+		}
+		k.c.Close()
+		c := k.w.Dial("")
+		if lr, lerr := c.Login(sim.LoginOpts{Login: "admin", Password: "admin", Name: "verif"}); lerr == nil && lr.Err == 0 {
+			k.c = c
+		}
+		return rep, replied, true
+	}
+	r, err := k.c.WaitReply(id, 0)
+	if err != nil {
+		return sim.Tx{}, false, false
+	}
+	return r, true, false
+}
+
 // transferResult: how the server side of one transfer connection ended.
 type transferResult struct {
 	Returned bool   // the handler returned before any Delete (no transfer was identified)
